@@ -93,6 +93,12 @@ def solve_one(ob, timeout_ms=10000, use_cvc5=True, recheck_cvc5=False):
                         model = model_to_dict(zmodel)
                     except Exception:
                         model = {}
+        if status == "unknown" and timeout_ms > FIRST_TRY_MS:
+            # last proof attempt before the counter-model search: the lambda-free query under two other solver seeds (only `unsat` is taken)
+            for sd in (7, 23):
+                if solve_without_lambdas(ob["pc"], ob["goal"], timeout_ms=timeout_ms // 2, seed=sd) == "unsat":
+                    status, backend = "unsat", "z3(hypotheses with lambda terms dropped)"
+                    break
         if status == "unknown":
             sm = small_model_search(ob["pc"], ob["goal"], timeout_ms=min(timeout_ms, FIRST_TRY_MS))
             if sm is not None:
@@ -134,7 +140,7 @@ def _has_lambda(t, memo):
     return r
 
 
-def solve_without_lambdas(pc, goal, timeout_ms=3000):
+def solve_without_lambdas(pc, goal, timeout_ms=3000, seed=None):
     """z3's array theory is incomplete for lambda terms whose body is quantified (CNT over a derived mask); dropping the hypotheses
     that contain a lambda only weakens what may be used, so `unsat` is still a proof."""
     memo = {}
@@ -145,6 +151,8 @@ def solve_without_lambdas(pc, goal, timeout_ms=3000):
         return "unknown"
     s = z3.Solver()
     s.set("timeout", timeout_ms)
+    if seed is not None:
+        s.set("random_seed", seed)
     s.add(*keep)
     s.add(z3.Not(goal))
     return "unsat" if s.check() == z3.unsat else "unknown"
